@@ -1,6 +1,6 @@
 """C17 - connection setup: address resolution and auth follow the protocol and terminate.
 
-Proof: coq/Properties/C17.v (17 theorems: exact characterisation of the addresses that resolve and to what;
+Proof: coq/Properties/C17.v (all its theorems, listed with their axioms in the evidence: exact characterisation of the addresses that resolve and to what;
 the handshake model conforms to the protocol for every uid, flag and scripted server, terminates without
 panic, and accounts for every byte of the peer).
 Tie: the extracted model (ocaml/c17) and the real crate (harness bin c17) run on the same inputs:
@@ -22,7 +22,7 @@ import subprocess
 import vlib
 
 CRLF = b"\r\n"
-DRIFT_HASH = "cb91433370bf"  # normalised text of the anchored functions when the model was written
+DRIFT_HASH = "b3e9ebcb91c1"  # normalised text of the anchored functions when the model was written
 
 
 # ------------------------------------------------------------------ helpers
@@ -252,23 +252,51 @@ def expected_lines(uid, fd):
     return ls
 
 
-class Script:
-    """greeting + replies; each step = (chunks, closes); optional harness-only 'x<k>' last step"""
+RUN = re.compile(rb"(.)\1{15,}", re.S)
 
-    def __init__(self, steps, fd, kind="p", probe=False, xk=None, tag=""):
+
+def tok(c):
+    """a chunk as '<hex>' / '<hh>*<n>' segments joined by '+' (long runs of one byte stay short)"""
+    out, i = [], 0
+    for m in RUN.finditer(c):
+        if m.start() > i:
+            out.append(c[i:m.start()].hex())
+        out.append("%02x*%d" % (c[m.start()], m.end() - m.start()))
+        i = m.end()
+    if i < len(c):
+        out.append(c[i:].hex())
+    return "+".join(out)
+
+
+class Script:
+    """greeting + replies; each step = (chunks, closes); optional harness-only last step: 'x<k>' (read k more
+    client bytes, close) or 'g' (write CR-LF-free bytes until the client closes). lock = indices of the steps
+    whose chunks are delivered in lockstep (each chunk exactly one read of the client)"""
+
+    def __init__(self, steps, fd, kind="p", probe=False, xk=None, tag="", lock=(), garbage=False):
         self.steps = steps
         self.fd = fd
         self.kind = kind
         self.probe = probe
         self.xk = xk          # read exactly k more client bytes, then close (harness only)
         self.tag = tag
+        self.lock = set(lock)
+        self.garbage = garbage
 
     def text(self, for_model=False):
+        cache = self.__dict__.setdefault("_text", {})
+        if for_model not in cache:
+            cache[for_model] = self._text_uncached(for_model)
+        return cache[for_model]
+
+    def _text_uncached(self, for_model):
         out = []
-        for chunks, closes in self.steps:
-            out.append(",".join(["c" if closes else "k"] + [c.hex() for c in chunks if c]))
+        for i, (chunks, closes) in enumerate(self.steps):
+            out.append(",".join([("c" if closes else ("l" if i in self.lock else "k"))] + [tok(c) for c in chunks if c]))
         if self.xk is not None:
             out.append("c" if for_model else "x%d" % self.xk)
+        if self.garbage:
+            out.append("k,78*40000/512" if for_model else "g")
         return ";".join(out)
 
     def harness_line(self):
@@ -287,25 +315,35 @@ class Script:
         if g_closes:
             return not any(g_chunks)
         avail = [c for c in g_chunks if c]
-        for chunks, closes in self.steps[1:(3 if self.fd else 2)]:   # the exchanges in which the client reads
-            avail = avail + [c for c in chunks if c]
+        exact = True        # every chunk available so far is delivered as its own read
+        for i, (chunks, closes) in list(enumerate(self.steps))[1:(3 if self.fd else 2)]:   # the exchanges in which the client reads
+            mine = [c for c in chunks if c]
+            # lockstep makes chunk = read only for chunks that fill the 512-byte read buffer: after a shorter one
+            # the client's read() may still pick up the next chunk in the same call (seen about once in 3000 runs)
+            exact = (exact or not avail) and i in self.lock and all(len(c) == 512 for c in mine[:-1])
+            avail = avail + mine
             cum = b""
             hit = None
-            for i, c in enumerate(avail):
+            for j, c in enumerate(avail):
                 cum += c
                 if CRLF in cum:
-                    hit = i
+                    hit = j
                     break
             if hit is None:
                 if not closes:
                     return False          # would wait for more: not generated
-            else:
+            elif not exact:
                 if hit != len(avail) - 1:
                     return False
                 trailing = len(cum) - (cum.index(CRLF) + 2)
                 if trailing > 0 and len(cum) > 512:
                     return False
+                # the 16 KiB limit is tested before each read: between these lengths the verdict depends on how
+                # the kernel groups the bytes into reads
+                if 16384 <= cum.index(CRLF) <= 16384 + 510:
+                    return False
             avail = []
+            exact = True
             if closes:
                 break
         return True
@@ -332,7 +370,10 @@ def is_utf8(b):
         return False
 
 
-def judge_hs(uid, sc, cls, S, M):
+SLACK = 4 << 20      # what the kernel may buffer on behalf of a client that has stopped reading
+
+
+def judge_hs(uid, sc, cls, S, M, W=0):
     """the property text evaluated on the implementation's own output; None = satisfied"""
     if cls == "panic":
         return "connect_to_bus panicked"
@@ -344,7 +385,11 @@ def judge_hs(uid, sc, cls, S, M):
     elif not any(p.startswith(S) for p in prefixes):
         return "client bytes are not a prefix of the expected conversation"
     if cls == "hang":
+        if sc.garbage:
+            return "connect_to_bus did not return although the server only streams bytes without a line ending (%d written)" % W
         return "connect_to_bus did not return within the deadline although the server answered or closed"
+    if sc.garbage and W > 2 * (16384 + 512) + SLACK:
+        return "the handshake kept reading far beyond the line limit (%d bytes written by the server)" % W
     l1, l2 = sc.first_lines()
     det = sc.deterministic()
     all_server = b"".join(b"".join(ch) for ch, _ in sc.steps)
@@ -401,7 +446,7 @@ def cuts(r, data, k):
     return out
 
 
-def gen_scripts(r, thorough):
+def gen_scripts(r, thorough, uid=0):
     S = []
 
     def add(steps, fd, **kw):
@@ -418,6 +463,30 @@ def gen_scripts(r, thorough):
     for n in (509, 510, 511, 512, 513, 600, 1023, 1024, 1500):
         for pre in (b"OK ", b"XX "):
             add([K, ([pre + b"x" * (n - 3) + CRLF], False), ([AGL], False), K], n % 2 == 0, tag="long")
+    # the 16 KiB line limit: lines just under / at / over it, delivered in lockstep (every chunk one read: exact
+    # boundary), byte-wise at the end, and as one large write; and servers that never end their line
+    def pieces(data, k):
+        return [data[i:i + k] for i in range(0, len(data), k)]
+    for L in (16383, 16384, 16385, 16384 + 510, 16384 + 511, 16384 + 512, 20000, 100000):
+        for pre, fd in ((b"OK ", False), (b"OK ", True), (b"XX ", False)):
+            line = pre + b"x" * (L - 3)
+            add([K, (pieces(line, 512) + [CRLF], False), ([AGL], False), K], fd, lock=[1], tag="limit")
+            add([K, (pieces(line + CRLF, 512), False), ([AGL], False), K], fd, lock=[1], tag="limit")
+            add([K, ([line + CRLF], False), ([AGL], False), K], fd, tag="limit")
+    for L in (16382, 16383, 16384, 16385):
+        line = b"OK " + b"x" * (L - 3)
+        add([K, (pieces(line[:15872], 512) + pieces(line[15872:] + CRLF, 1), False), ([AGL], False), K], L % 2 == 0, lock=[1], tag="limit")
+        agree = b"AGREE_UNIX_FD " + b"y" * (L - 14)
+        add([K, ([OKL], False), (pieces(agree[:15872], 512) + pieces(agree[15872:] + CRLF, 1), False), K], True, lock=[2], tag="limit")
+        add([K, ([OKL], False), (pieces(agree, 512) + [CRLF], False), K], True, lock=[2], tag="limit")
+    if thorough:
+        for L in (16383, 16384):
+            add([K, (pieces(b"OK " + b"x" * (L - 3) + CRLF, 1), False), K], False, lock=[1], tag="limit")
+    for fd in (False, True):
+        add([K], fd, garbage=True, tag="garbage")
+    add([K, ([OKL], False)], True, garbage=True, tag="garbage")
+    add([K, ([b"x" * 16385], True)], False, tag="limit")
+    add([K, ([b"x" * 16384], True)], False, tag="limit")
     # every 2-cut of each reply line, exhaustively
     for i in range(1, len(OKL)):
         add([K, ([OKL[:i], OKL[i:]], False), ([AGL], False), K], i % 2 == 0, tag="cut2")
@@ -451,15 +520,14 @@ def gen_scripts(r, thorough):
     add([K, ([OKL], False), ([], True)], False, tag="close_after_begin")
     # close after k bytes read from the client, for every k of the expected conversation (timing decides how
     # far the client got: judged by the property predicate only)
-    exp0 = b"".join(expected_lines(0, True))
-    for k in range(0, 23):
+    first = b"".join(expected_lines(uid, True)[:2])      # NUL + AUTH line: all the client sends unasked
+    for k in range(0, len(first) + 1):
         add([K], k % 2 == 0, xk=k, tag="closeread")
     for k in range(0, len(b"NEGOTIATE_UNIX_FD\r\n")):
         add([K, ([OKL], False)], True, xk=k, tag="closeread")
     for k in range(0, len(b"BEGIN\r\n")):
         add([K, ([OKL], False), ([AGL], False)], True, xk=k, tag="closeread")
         add([K, ([OKL], False)], False, xk=k, tag="closeread")
-    del exp0
     # two lines / trailing bytes in the chunk that completes the line (dropped by read_message)
     add([K, ([OKL + AGL], False), ([], True)], True, tag="pipelined")
     add([K, ([OKL + AGL], False), ([AGL], False), K], True, tag="pipelined")
@@ -547,7 +615,7 @@ def run(ctx):
                 "bytes), resolved through DBUS_SESSION_BUS_ADDRESS and judged by an independent reading of the grammar (no ';', every piece key=value, exactly one path|abstract key, non-empty value); non-trivial = starts with 'unix:' and has a path/abstract key. "
                 "utf-8: all 1- and 2-byte strings and boundary 3-/4-byte sequences; non-trivial = contains a byte >= 0x80. "
                 "handshakes: scripted servers - every reply class per step (OK.., REJECTED, ERROR, DATA, OKAY, garbage, non-UTF-8, empty, bare "
-                "CR/LF, lines of 509..1500 bytes), every 2-cut of each reply line, byte-wise and random k-cuts, close after k reply bytes for "
+                "CR/LF, lines of 509..1500 bytes), lines of 16382..16385, 16894..16896, 20000 and 100000 bytes around the 16 KiB limit (delivered in lockstep - the server writes a chunk only after SIOCOUTQ shows the previous one was read; for 512-byte chunks chunk = read and the boundary is exact -, byte-wise at the end, and as one large write; whenever the read grouping is up to the kernel (short chunks, one large write) lines of 16384..16894 bytes are judged by the predicate only), servers that stream bytes without a line ending until the client closes (result class compared strictly; the bytes the server got rid of are only required to stay below 2*(16384+512) plus 4 MiB of socket-buffer slack, the kernel buffers on behalf of the client), every 2-cut of each reply line, byte-wise and random k-cuts, close after k reply bytes for "
                 "every k, close after k client bytes for every k, two lines per chunk, unsolicited greeting, message after BEGIN, random "
                 "compositions; on path and abstract sockets; under the own uid and setuid children; non-trivial = the server sends at least one byte; "
                 "distinct = distinct (uid, flag, script) / distinct byte strings")
@@ -587,17 +655,37 @@ def corpus_lines():
     return out
 
 
+def untok(s):
+    body, _, piece = s.partition("/")
+    out = b""
+    for seg in body.split("+"):
+        if "*" in seg:
+            b, n = seg.split("*")
+            out += bytes([int(b, 16)]) * int(n)
+        else:
+            out += bytes.fromhex(seg)
+    if piece:
+        k = int(piece)
+        return [out[i:i + k] for i in range(0, len(out), k)]
+    return [out]
+
+
 def script_from_line(line):
     parts = line.split(" ")
-    steps = []
-    xk = None
+    steps, lock = [], []
+    xk, garbage = None, False
     for st in parts[3].split(";"):
         items = st.split(",")
         if items[0].startswith("x"):
             xk = int(items[0][1:])
             continue
-        steps.append(([bytes.fromhex(c) for c in items[1:]], items[0] == "c"))
-    return Script(steps, parts[1] == "1", kind=parts[2], probe=(len(parts) > 4), xk=xk, tag="corpus")
+        if items[0] == "g":
+            garbage = True
+            continue
+        if items[0] == "l":
+            lock.append(len(steps))
+        steps.append(([c for it in items[1:] for c in untok(it)], items[0] == "c"))
+    return Script(steps, parts[1] == "1", kind=parts[2], probe=(len(parts) > 4), xk=xk, tag="corpus", lock=lock, garbage=garbage)
 
 
 def _run(ctx, thorough, exe, drv, work):
@@ -649,16 +737,17 @@ def _run(ctx, thorough, exe, drv, work):
             elif impl != model:
                 ctx.disagreements_checked += 1
                 tie(ctx, "correspondence: address resolution agrees with the property predicate but differs from the model", str(data))
-    # get_system_bus_path
+    # get_system_bus_path: the path constant is observable either way (Ok(path) or PathDoesNotExist(path))
     rc_i, out_i, _ = run_proc([exe], ["y"], cwd=w.dir, env=env)
-    want = "P:" + hx(b"/run/dbus/system_bus_socket") if os.path.exists("/run/dbus/system_bus_socket") else "E"
+    sysbus = b"/run/dbus/system_bus_socket"          # C17_system_bus_path
+    want = ("P:" if os.path.exists(sysbus.decode()) else "N:") + hx(sysbus)
     ctx.case(("y",), nontrivial=False)
     if rc_i != 0 or len(out_i) != 2 or out_i[1] != want:
         ctx.disagreements_checked += 1
         if len(out_i) == 2 and out_i[1] == "PANIC":
             ctx.violation("get_system_bus_path panicked", {"kind": "sys", "line": "y", "impl": out_i})
         else:
-            tie(ctx, "correspondence: get_system_bus_path differs from the model", "impl %s want %s" % (out_i, want))
+            tie(ctx, "correspondence: get_system_bus_path does not use /run/dbus/system_bus_socket as the model does", "impl %s want %s" % (out_i, want))
 
     # ---------------------------------------------------------------- utf-8 (the model's stand-in for from_utf8)
     ucases = utf8_cases(thorough)
@@ -680,11 +769,11 @@ def _run(ctx, thorough, exe, drv, work):
 
     # ---------------------------------------------------------------- handshakes
     r = ctx.sub_rng("hs")
-    scripts = [script_from_line(l) for l in corpus if l.startswith("h ")] + gen_scripts(r, thorough)
+    scripts = [script_from_line(l) for l in corpus if l.startswith("h ")] + gen_scripts(r, thorough, os.getuid())
     own_uid = os.getuid()
-    small = [s for s in scripts if s.tag in ("probe", "pipelined", "greeting", "bytewise")] + \
+    small = [s for s in scripts if s.tag in ("probe", "pipelined", "greeting", "bytewise", "garbage")] + \
             [s for s in scripts if s.tag == "class1"][::7] + [s for s in scripts if s.tag == "close1"][::5]
-    other_uids = [1, 10, 1000, 65534, 100000, 4294967294] + [r.randrange(2, 2 ** 32 - 1) for _ in range(6 if thorough else 2)]
+    other_uids = [1, 10, 89, 1000, 65534, 100000, 1234567890, 4294967294] + [r.randrange(2, 2 ** 32 - 1) for _ in range(6 if thorough else 2)]
     runs = [(None, own_uid, scripts)]
     if own_uid == 0:
         runs += [(u, u, small) for u in other_uids if u != own_uid]
@@ -738,18 +827,20 @@ def _run(ctx, thorough, exe, drv, work):
                 tie(ctx, "harness stopped after repeated hangs", sc.harness_line())
                 continue
             S = unhx(i["S"])
-            data = {"kind": "hs", "uid": uid, "setuid": setuid, "line": sc.harness_line(), "impl": li, "model": lm, "tag": sc.tag}
+            data = {"kind": "hs", "uid": uid, "setuid": setuid, "line": sc.harness_line(), "impl": li[:400], "model": lm[:400], "tag": sc.tag}
             if m["cls"] in ("blocked", "panic", "fuel"):
                 if m["cls"] == "blocked":
                     tie(ctx, "generator produced a script on which the model waits for the server", sc.harness_line())
                 else:
                     tie(ctx, "model returned %s" % m["cls"], sc.harness_line())
                 continue
-            why = judge_hs(uid, sc, i["cls"], S, i.get("M", "-"))
+            why = judge_hs(uid, sc, i["cls"], S, i.get("M", "-"), int(i.get("W", "0")))
             if why:
                 ctx.disagreements_checked += 1
                 ctx.violation(why, data)
                 continue
+            if sc.garbage:
+                ctx.extra.setdefault("garbage_server_bytes_written", []).append(int(i.get("W", "0")))
             if det:
                 mcls = {"ok": "ok", "authfailed": "authfailed", "fdfailed": "fdfailed", "err": "err"}[m["cls"]]
                 if i["cls"] != mcls or S != unhx(m["S"]):
@@ -802,7 +893,7 @@ def replay(ctx, body):
             _, out_i, _ = run_proc(cmd, [sc.harness_line()], cwd=work, env=env)
             _, out_m, _ = run_proc([drv], [sc.model_line(uid)])
             i = parse_hs(out_i[1])
-            why = judge_hs(uid, sc, i["cls"], unhx(i["S"]), i.get("M", "-"))
+            why = judge_hs(uid, sc, i["cls"], unhx(i["S"]), i.get("M", "-"), int(i.get("W", "0")))
             print("script:", data["line"], "uid", uid)
             print("impl :", out_i[1])
             print("model:", out_m[0])
